@@ -15,6 +15,7 @@ CHECK = dict(
             dict(name="statemachine", run="^TestVerifC14StateMachine$", quick=3000, thorough=3000000, shards_thorough=12),
             dict(name="concurrent", run="^TestVerifC14Concurrent$", quick=60, thorough=4000, shards_thorough=4),
             dict(name="concurrent-race", run="^TestVerifC14Concurrent$", quick=30, thorough=1000, shards_thorough=2, race=True),
+            dict(name="overlapping-refresh", run="^TestVerifC14OverlappingRefresh$", quick=150, thorough=6000, shards_thorough=6),
         ]),
         dict(name="roundtrip", dir="internal/profiledb", src="C14/roundtrip", runs=[
             dict(name="roundtrip", run="^TestVerifC14rtRoundTrip$", quick=2000, thorough=90000, shards_thorough=6),
